@@ -53,6 +53,23 @@ func engaMenu(rich bool) []enga.ABlock {
 	return m
 }
 
+// treeRecheck makes every violation of a tree search that carries its history be re-executed
+// on a fresh root (same monitors, reporting into a probe run) before it is believed.
+func treeRecheck(r *mc.Run, explore func(p *mc.Run, only []enga.ABlock)) {
+	if r.IsProbe() {
+		return
+	}
+	r.Recheck = func(v mc.Violation) bool {
+		d, ok := v.Detail.(engaDetail)
+		if !ok || len(d.Path) == 0 {
+			return true
+		}
+		p := r.Probe()
+		explore(p, d.Path)
+		return p.Has(v.Class)
+	}
+}
+
 type engaDetail struct {
 	Path  []enga.ABlock `json:"path"`
 	Fault string        `json:"fault,omitempty"`
@@ -287,54 +304,63 @@ func runC09(r *mc.Run) {
 	r.Bounds["fault_enumeration_history_depth"] = faultDepth
 	r.Rule = "tree search over block histories of the real application (real PrepareProposal/ProcessProposal/FinalizeBlock/Commit, fake execution layer over IPC) with the head monitor on every finalised block; at every node up to the fault depth, for every menu block, every placement of one engine fault (error, INVALID, SYNCING, ACCEPTED, missing payload id, stall past the 1.2 s deadline) on each of the 5 engine calls; aborted blocks are retried (after a restart when FinalizeBlock failed) and compared with a fault-free replica"
 	r.Assumptions = []string{"single validator = proposer of every block", "ELSim defines the well-behaved engine", "pairs of faults are explored from the initial state in the thorough tier only"}
-	root, err := enga.NewWorld(engaCfg())
-	if err != nil {
-		panic(err)
-	}
-	defer root.Close()
-	menu := engaMenu(r.Thorough())
-	faultBlocks := []enga.ABlock{{}, {Events: []enga.Event{{Kind: "tx:hashes", N: 1}}}, {Events: []enga.Event{{Kind: "req:withdraw", N: 2, Var: "bad-address"}, {Kind: "req:claim", N: 1}}}}
-	t := &enga.Tree{Run: r, Depth: depth,
-		Menu: func(w *enga.World, path []enga.ABlock) []enga.ABlock { return menu },
-		Pre: func(w *enga.World) any {
-			h := w.Head()
-			return h
-		},
-		Visit: func(path []enga.ABlock, pre any, child *enga.World, res *enga.Result) bool {
-			if res.Err != nil {
-				r.Outcome("block-not-executed:" + res.Stage)
-				r.Violate(mc.Violation{Class: "honest-block-fails:" + res.Stage, Msg: fmt.Sprintf("%v | history %v", res.Err, aPath(path)), Detail: engaDetail{Path: path}}, nil)
-				return false
-			}
-			if res.EthOK {
-				r.Outcome("head-advanced")
-			} else {
-				r.Outcome("execution-message-failed")
-			}
-			for _, b := range enga.CheckHead(pre.(enga.HeadInfo), child, res) {
-				cls := b
-				if i := bytes.IndexByte([]byte(b), ':'); i > 0 {
-					cls = b[:i]
-				}
-				r.Violate(mc.Violation{Class: "head-monitor:" + cls, Msg: b + fmt.Sprintf(" | history %v", aPath(path)), Detail: engaDetail{Path: path}}, nil)
-			}
-			if len(path) <= faultDepth {
-				for _, fb := range faultBlocks {
-					c09FaultEnum(r, child, path, fb)
-				}
-			}
-			return true
-		},
-	}
-	// faults from the initial state too
-	for _, fb := range faultBlocks {
-		c09FaultEnum(r, root, nil, fb)
-		if r.Thorough() {
-			c09FaultPairs(r, root, nil, fb)
+	var explore func(r *mc.Run, only []enga.ABlock)
+	explore = func(r *mc.Run, only []enga.ABlock) {
+		root, err := enga.NewWorld(engaCfg())
+		if err != nil {
+			panic(err)
 		}
+		defer root.Close()
+		menu := engaMenu(r.Thorough())
+		faultBlocks := []enga.ABlock{{}, {Events: []enga.Event{{Kind: "tx:hashes", N: 1}}}, {Events: []enga.Event{{Kind: "req:withdraw", N: 2, Var: "bad-address"}, {Kind: "req:claim", N: 1}}}}
+		t := &enga.Tree{Run: r, Depth: depth,
+			Menu: func(w *enga.World, path []enga.ABlock) []enga.ABlock { return menu },
+			Pre: func(w *enga.World) any {
+				h := w.Head()
+				return h
+			},
+			Visit: func(path []enga.ABlock, pre any, child *enga.World, res *enga.Result) bool {
+				if res.Err != nil {
+					r.Outcome("block-not-executed:" + res.Stage)
+					r.Violate(mc.Violation{Class: "honest-block-fails:" + res.Stage, Msg: fmt.Sprintf("%v | history %v", res.Err, aPath(path)), Detail: engaDetail{Path: path}}, nil)
+					return false
+				}
+				if res.EthOK {
+					r.Outcome("head-advanced")
+				} else {
+					r.Outcome("execution-message-failed")
+				}
+				for _, b := range enga.CheckHead(pre.(enga.HeadInfo), child, res) {
+					cls := b
+					if i := bytes.IndexByte([]byte(b), ':'); i > 0 {
+						cls = b[:i]
+					}
+					r.Violate(mc.Violation{Class: "head-monitor:" + cls, Msg: b + fmt.Sprintf(" | history %v", aPath(path)), Detail: engaDetail{Path: path}}, nil)
+				}
+				if len(path) <= faultDepth {
+					for _, fb := range faultBlocks {
+						c09FaultEnum(r, child, path, fb)
+					}
+				}
+				return true
+			},
+		}
+		// faults from the initial state too
+		for _, fb := range faultBlocks {
+			if only != nil {
+				break
+			}
+			c09FaultEnum(r, root, nil, fb)
+			if r.Thorough() {
+				c09FaultPairs(r, root, nil, fb)
+			}
+		}
+		t.Only = only
+		t.Explore(root)
+		r.Sample(map[string]any{"history": aPath([]enga.ABlock{menu[1], menu[3], menu[5]}), "faults_per_block": len(c09Faults())})
 	}
-	t.Explore(root)
-	r.Sample(map[string]any{"history": aPath([]enga.ABlock{menu[1], menu[3], menu[5]}), "faults_per_block": len(c09Faults())})
+	treeRecheck(r, explore)
+	explore(r, nil)
 }
 
 func replayC09(detail json.RawMessage) (bool, string) {
